@@ -28,6 +28,14 @@ Theorem C13_provision_no_panic : forall e x epp bonded,
             S * v <= ((ec_a e + ec_c e) * (S + ec_maxvar e) + S) * power_reduction.
 Proof. exact provision_no_panic. Qed.
 
+(* no panic at all for parameters the (repaired) validator accepts: it evaluates the worst case
+   (period 0, one epoch per period, bonded ratio 0), which dominates every other evaluation *)
+Theorem C13_provision_no_panic_validated : forall e x epp bonded,
+  valid_exp e = true -> (exists v0, calc_provision e 0%N 1 0 = Some v0) ->
+  valid_epp epp = true -> 0 <= bonded ->
+  exists v, calc_provision e x epp bonded = Some v /\ 0 <= v.
+Proof. exact provision_no_panic_validated. Qed.
+
 (* bonding incentive in [1, 1 + maxVariance]; at or above the target at most 1 + 1ulp *)
 Theorem C13_incentive_bounds : forall e bonded v,
   valid_exp e = true -> 0 <= bonded ->
@@ -118,6 +126,7 @@ Proof. exact hook_provision_nonneg. Qed.
 Print Assumptions C13_provision_formula.
 Print Assumptions C13_provision_nonneg.
 Print Assumptions C13_provision_no_panic.
+Print Assumptions C13_provision_no_panic_validated.
 Print Assumptions C13_incentive_bounds.
 Print Assumptions C13_provision_uses_incentive.
 Print Assumptions C13_provision_integral.
